@@ -6,9 +6,12 @@
      ^CS.*?(CE[+,]|CE$)                                                   -> find_close
      actionNameRegexp  (?i)^[a-z-]+                                       -> name_prefix
      (?i)(alt-),                                                          -> alt_comma
-   Domain of faithfulness: ASCII outside action arguments (Go's (?i) also folds
-   U+017F/U+212A and ToLower maps U+0130/U+212A to ASCII letters; such text is outside
-   the modelled domain).  Every slice access is checked; Err = the Go code would panic.
+   Domain of faithfulness: any bytes inside action arguments; key names are read as UTF-8
+   characters ([]rune(key): BindSpec.key_of_token / RuneSpec.utf8_runes), everything else
+   bytewise with ASCII case folding (Go's (?i) also folds U+017F/U+212A and ToLower maps
+   U+0130/U+212A to ASCII letters; text containing these three characters outside action
+   arguments is outside the modelled domain; unicode.IsGraphic, asked for a bare `put`, is
+   modelled for ASCII keys only).  Every slice access is checked; Err = the Go code would panic.
    A user-level error (Go returns err != nil) is `Ok (Bad code)`. *)
 From Coq Require Import String.
 From Fzf Require Import Prelude BindSpec.
